@@ -491,4 +491,265 @@ theorem buildThes_eq (b : Batch) (n : Name) :
   unfold synDefs
   rw [List.foldl_map, List.foldl_flatMap]
 
+/-! ### Generic association lists / duplicate-freeness -/
+
+theorem lookupG_of_mem {α β : Type} [DecidableEq α] {k : α} {v : β} {l : List (α × β)}
+    (hnd : (l.map (·.1)).Nodup) (h : (k, v) ∈ l) : lookup k l = some v := by
+  induction l with
+  | nil => cases h
+  | cons p l ih =>
+    obtain ⟨k', v'⟩ := p
+    rw [List.map_cons, List.nodup_cons] at hnd
+    simp only [lookup]
+    rcases List.mem_cons.1 h with e | hm
+    · cases e; simp
+    · have : k ≠ k' := by
+        intro e; subst e
+        exact hnd.1 (List.mem_map.2 ⟨(k, v), hm, rfl⟩)
+      simp only [this, if_false]; exact ih hnd.2 hm
+
+theorem inj_of_nodup_map {α β : Type} {f : α → β} {l : List α} (h : (l.map f).Nodup)
+    {a b : α} (ha : a ∈ l) (hb : b ∈ l) (e : f a = f b) : a = b := by
+  induction l with
+  | nil => cases ha
+  | cons x l ih =>
+    rw [List.map_cons, List.nodup_cons] at h
+    rcases List.mem_cons.1 ha with ea | ha' <;> rcases List.mem_cons.1 hb with eb | hb'
+    · rw [ea, eb]
+    · subst ea; exact absurd (List.mem_map.2 ⟨b, hb', e.symm⟩) h.1
+    · subst eb; exact absurd (List.mem_map.2 ⟨a, ha', e⟩) h.1
+    · exact ih h.2 ha' hb'
+
+theorem nodup_map_of_inj_on {α β : Type} {f : α → β} {l : List α} (hl : l.Nodup)
+    (hinj : ∀ a ∈ l, ∀ b ∈ l, f a = f b → a = b) : (l.map f).Nodup := by
+  unfold List.Nodup
+  rw [List.pairwise_map]
+  exact List.Pairwise.imp_of_mem (fun {a b} ha hb hne e => hne (hinj a ha b hb e)) hl
+
+theorem eq_nil_of_no_mem {α : Type} {l : List α} (h : ∀ a, a ∉ l) : l = [] := by
+  cases l with
+  | nil => rfl
+  | cons a l => exact absurd (List.mem_cons_self) (h a)
+
+/-! ### Reading a thesaurus -/
+
+theorem mem_synonyms (s : Seg) (n : Name) (term : Bytes) (ex : Option (List Nat)) (q : Bytes × Nat) :
+    q ∈ s.synonyms n term ex ↔
+      ∃ t, s.thes? n = some t ∧ ∃ cs, lookup term t.terms = some cs ∧
+        ∃ c ∈ cs, excluded ex c.2 = false ∧ q = ((lookup c.1 t.table).getD [], c.2) := by
+  unfold Seg.synonyms
+  split
+  · rename_i ht; simp [ht]
+  · rename_i t ht
+    split
+    · rename_i hl; simp [ht, hl]
+    · rename_i cs hl
+      simp only [ht, hl, List.mem_map, List.mem_filter, Bool.not_eq_true', Option.some.injEq, exists_eq_left']
+      constructor
+      · rintro ⟨c, ⟨h1, h2⟩, rfl⟩; exact ⟨c, h1, h2, rfl⟩
+      · rintro ⟨c, h1, h2, rfl⟩; exact ⟨c, ⟨h1, h2⟩, rfl⟩
+
+theorem mem_thesTerms (s : Seg) (n : Name) (k : Bytes) :
+    k ∈ s.thesTerms n ↔ ∃ t, s.thes? n = some t ∧ ∃ cs, lookup k t.terms = some cs := by
+  unfold Seg.thesTerms
+  cases s.thes? n with
+  | none => simp
+  | some t =>
+    simp only [Option.some.injEq, exists_eq_left']
+    rw [← lookup_isSome_iff]
+    cases lookup k t.terms <;> simp
+
+/-- For a well-formed thesaurus every pair is listed once. -/
+theorem thesWF_pairs_nodup {t : Thes} (h : ThesWF t) {term : Bytes} {cs : List (Nat × Nat)}
+    (hl : lookup term t.terms = some cs) (q : Nat × Nat → Bool) :
+    ((cs.filter q).map (fun c => ((lookup c.1 t.table).getD [], c.2))).Nodup := by
+  have hmem := lookup_mem hl
+  have hcs : cs.Nodup := pairwise_codeLt_nodup (h.codesAsc _ hmem).2
+  apply nodup_map_of_inj_on (List.Pairwise.filter _ hcs)
+  intro a ha b hb e
+  have ha' := (List.mem_filter.1 ha).1
+  have hb' := (List.mem_filter.1 hb).1
+  have h1 := h.idKnown _ hmem a ha'
+  have h2 := h.idKnown _ hmem b hb'
+  cases hla : lookup a.1 t.table with
+  | none => rw [hla] at h1; cases h1
+  | some sa =>
+    cases hlb : lookup b.1 t.table with
+    | none => rw [hlb] at h2; cases h2
+    | some sb =>
+      rw [hla, hlb] at e
+      simp only [Option.getD_some, Prod.mk.injEq] at e
+      have m1 := MergeL.lookup_some_mem hla
+      have m2 := MergeL.lookup_some_mem hlb
+      have := inj_of_nodup_map h.synsDistinct m1 m2 e.1
+      obtain ⟨a1, a2⟩ := a; obtain ⟨b1, b2⟩ := b
+      simp only [Prod.mk.injEq] at this e ⊢
+      exact ⟨this.1, e.2⟩
+
+theorem synonyms_nodup (s : Seg) (n : Name) (term : Bytes) (ex : Option (List Nat))
+    (h : ∀ t, s.thes? n = some t → ThesWF t) : (s.synonyms n term ex).Nodup := by
+  unfold Seg.synonyms
+  split
+  · exact List.nodup_nil
+  · rename_i t ht
+    split
+    · exact List.nodup_nil
+    · rename_i cs hl
+      exact thesWF_pairs_nodup (h t ht) hl _
+
+theorem thesTerms_sorted (s : Seg) (n : Name) (h : ∀ t, s.thes? n = some t → ThesWF t) :
+    SortedLt (s.thesTerms n) := by
+  unfold Seg.thesTerms
+  cases ht : s.thes? n with
+  | none => trivial
+  | some t => exact (h t ht).sorted
+
+/-! ### The thesaurus of a built segment -/
+
+theorem hasThes_iff (b : Batch) (n : Name) :
+    hasThes b n = true ↔ ∃ d ∈ b, ∃ f ∈ synFields d, f.name = n := by
+  unfold hasThes
+  simp only [List.any_eq_true, decide_eq_true_eq]
+
+theorem mem_synFields {d : DocIn} {f : FieldIn} :
+    f ∈ synFields d ↔ d.plain = false ∧ f ∈ d.fields ∧ f.kind = .syn := by
+  unfold synFields
+  cases hp : d.plain
+  · simp only [Bool.false_eq_true, if_false, List.mem_filter, beq_iff_eq, true_and]
+  · simp
+
+theorem hasThes_iff_spec {b : Batch} (hp : SynPlainOK b) (n : Name) :
+    hasThes b n = true ↔ hasSynField b n := by
+  rw [hasThes_iff]
+  unfold hasSynField
+  constructor
+  · rintro ⟨d, hd, f, hf, e⟩
+    obtain ⟨_, h2, h3⟩ := mem_synFields.1 hf
+    exact ⟨d, hd, f, h2, h3, e⟩
+  · rintro ⟨d, hd, f, hf, hk, e⟩
+    exact ⟨d, hd, f, mem_synFields.2 ⟨hp d hd f hf hk, hf, hk⟩, e⟩
+
+theorem hasThes_mem_fieldTable {b : Batch} {n : Name} (h : hasThes b n = true) : n ∈ fieldTable b := by
+  obtain ⟨d, hd, f, hf, e⟩ := (hasThes_iff b n).1 h
+  obtain ⟨_, h2, _⟩ := mem_synFields.1 hf
+  rw [Stored.mem_fieldTable]
+  refine Or.inr ?_
+  unfold Spec.names
+  refine List.mem_flatMap.2 ⟨d, hd, ?_⟩
+  unfold docNames
+  exact List.mem_map.2 ⟨f, (Stored.mem_visitOrder d f).2 h2, e⟩
+
+theorem buildSeg_thes? (v : Bool) (mode : Nat) (b : Batch) (hne : b ≠ []) (n : Name) :
+    (buildSeg v mode b).thes? n = if hasThes b n = true then some (buildThes b n) else none := by
+  have hlen := length_processDocs v (fieldTable b) b
+  have hnd : ¬ b.length = 0 := by
+    intro h; exact hne (List.length_eq_zero_iff.1 h)
+  unfold Seg.thes? Seg.field? Seg.loadedFields
+  simp only [buildSeg, hnd, if_false]
+  rw [find_zip_field _ (fun _ => rfl) n _ _ hlen]
+  by_cases h : n ∈ fieldTable b
+  · simp only [h, if_true]
+    by_cases ht : hasThes b n = true
+    · rw [if_pos ⟨hnd, ht⟩, if_pos ht]
+    · rw [if_neg (fun x => ht x.2), if_neg ht]
+  · have : ¬ hasThes b n = true := fun x => h (hasThes_mem_fieldTable x)
+    simp [h, this]
+
+theorem mem_synDefs {d : DocIn} {n : Name} {df : SynDefn} :
+    df ∈ synDefs d n ↔ ∃ f ∈ d.fields, f.kind = .syn ∧ f.name = n ∧ df ∈ f.defs := by
+  unfold synDefs
+  simp only [List.mem_flatMap, List.mem_filter, Bool.and_eq_true, beq_iff_eq, decide_eq_true_eq]
+  constructor
+  · rintro ⟨f, ⟨h1, h2, h3⟩, h4⟩; exact ⟨f, h1, h2, h3, h4⟩
+  · rintro ⟨f, h1, h2, h3, h4⟩; exact ⟨f, ⟨h1, h2, h3⟩, h4⟩
+
+theorem rhs_mem_synIds {b : Batch} (hp : SynPlainOK b) {n : Name} {d : DocIn} (hd : d ∈ b)
+    {df : SynDefn} (hdf : df ∈ synDefs d n) {s : Bytes} (hs : s ∈ df.rhs) : s ∈ synIds b n := by
+  obtain ⟨f, hf, hk, hn, hdf'⟩ := mem_synDefs.1 hdf
+  rw [mem_synIds]
+  unfold synList
+  refine List.mem_flatMap.2 ⟨d, hd, List.mem_flatMap.2 ⟨f, ?_, List.mem_flatMap.2 ⟨df, hdf', hs⟩⟩⟩
+  exact List.mem_filter.2 ⟨mem_synFields.2 ⟨hp d hd f hf hk, hf, hk⟩, by simpa using hn⟩
+
+theorem mem_synIds_iff (b : Batch) (n : Name) (s : Bytes) :
+    s ∈ synIds b n ↔ ∃ d ∈ b, ∃ f ∈ synFields d, f.name = n ∧ ∃ df ∈ f.defs, s ∈ df.rhs := by
+  rw [mem_synIds]
+  unfold synList
+  simp only [List.mem_flatMap, List.mem_filter, decide_eq_true_eq]
+  constructor
+  · rintro ⟨d, hd, f, ⟨hf, hn⟩, df, hdf, hs⟩; exact ⟨d, hd, f, hf, hn, df, hdf, hs⟩
+  · rintro ⟨d, hd, f, hf, hn, df, hdf, hs⟩; exact ⟨d, hd, f, ⟨hf, hn⟩, df, hdf, hs⟩
+
+theorem zipIdx_mem_left {α : Type} {l : List α} {p : α × Nat} (h : p ∈ l.zipIdx) : p.1 ∈ l := by
+  have := List.mem_zipIdx_iff_getElem?.1 h
+  exact List.mem_of_getElem? this
+
+/-- Codes under a key of the accumulated map = the events with that key. -/
+theorem hasCode_build (ids : List Bytes) (b : Batch) (n : Name) (k : Bytes) (c : Nat × Nat) :
+    HasCode (runEvs (evs ids b n) []) k c ↔
+      ∃ p ∈ b.zipIdx, ∃ df ∈ synDefs p.1 n, df.lhs = k ∧ ∃ s ∈ df.rhs, c = (synIdOf ids s, p.2) := by
+  rw [hasCode_runEvs]
+  have h0 : ¬ HasCode [] k c := by rintro ⟨cs, h, _⟩; cases h
+  simp only [h0, false_or]
+  unfold evs
+  simp only [List.mem_flatMap, List.mem_map]
+  constructor
+  · rintro ⟨e, ⟨p, hp, df, hdf, rfl⟩, h1, h2⟩
+    obtain ⟨s, hs, e⟩ := List.mem_map.1 h2
+    exact ⟨p, hp, df, hdf, h1, s, hs, e.symm⟩
+  · rintro ⟨p, hp, df, hdf, h1, s, hs, e⟩
+    exact ⟨_, ⟨p, hp, df, hdf, rfl⟩, h1, List.mem_map.2 ⟨s, hs, e.symm⟩⟩
+
+theorem lookup_buildThes_terms (b : Batch) (n : Name) (k : Bytes) (c : Nat × Nat) :
+    (∃ cs, lookup k (buildThes b n).terms = some cs ∧ c ∈ cs) ↔
+      HasCode (runEvs (evs (synIds b n) b n) []) k c := by
+  rw [buildThes_eq]
+  simp only []
+  rw [lookup_finishTerms _ (runEvs_nodup _ [] List.nodup_nil)]
+  unfold HasCode
+  cases lookup k (runEvs (evs (synIds b n) b n) []) with
+  | none => simp
+  | some cs =>
+    cases hc : cs.isEmpty
+    · have hne : ¬ cs = [] := by intro e; rw [e] at hc; simp at hc
+      simp only [Option.bind_some, hc, Bool.false_eq_true, if_false, Option.some.injEq, exists_eq_left']
+    · have : cs = [] := by simpa using hc
+      subst this; simp
+
+theorem buildThes_wf {b : Batch} (hp : SynPlainOK b) (n : Name) : ThesWF (buildThes b n) := by
+  have hnd := runEvs_nodup (evs (synIds b n) b n) [] List.nodup_nil
+  have hterms : (buildThes b n).terms = finishTerms (runEvs (evs (synIds b n) b n) []) := by
+    rw [buildThes_eq]
+  have htable : (buildThes b n).table = tableOf (synIds b n) := by rw [buildThes_eq]
+  have hlk : ∀ p ∈ (buildThes b n).terms, lookup p.1 (runEvs (evs (synIds b n) b n) []) = some p.2 ∧ p.2 ≠ [] := by
+    intro p hp'
+    rw [hterms] at hp'
+    have hs := finishTerms_sorted _ hnd
+    have h1 := lookup_of_mem_nodup (MergeL.sortedLt_nodup hs) (k := p.1) (v := p.2) hp'
+    rw [lookup_finishTerms _ hnd] at h1
+    cases hl : lookup p.1 (runEvs (evs (synIds b n) b n) []) with
+    | none => rw [hl] at h1; cases h1
+    | some cs =>
+      rw [hl] at h1
+      simp only [Option.bind_some] at h1
+      split at h1
+      · cases h1
+      · rename_i hne
+        cases h1
+        exact ⟨rfl, by intro e; rw [e] at hne; simp at hne⟩
+  refine ⟨?_, ?_, ?_, ?_, ?_⟩
+  · rw [hterms]; exact finishTerms_sorted _ hnd
+  · intro p hp'
+    obtain ⟨h1, h2⟩ := hlk p hp'
+    refine ⟨h2, ?_⟩
+    exact allAsc_runEvs _ [] (by intro k cs h; cases h) p.1 p.2 h1
+  · intro p hp' c hc
+    obtain ⟨h1, _⟩ := hlk p hp'
+    have : HasCode (runEvs (evs (synIds b n) b n) []) p.1 c := ⟨p.2, h1, hc⟩
+    obtain ⟨q, hq, df, hdf, _, s, hs, rfl⟩ := (hasCode_build _ b n p.1 c).1 this
+    rw [htable, lookup_tableOf_synIdOf (rhs_mem_synIds hp (zipIdx_mem_left hq) hdf hs)]
+    rfl
+  · rw [htable, tableOf_ids]; exact List.nodup_range' 1
+  · rw [htable, tableOf_syns]; exact synIds_nodup b n
+
 end Zap.SynL
